@@ -203,13 +203,21 @@ def run_case(case, ctx):
     else:
         m2, expect = _variant_mesh(mesh, v)
         g2 = mk(m2)
+        if ctor == "vertices-xyz" and not expect:
+            # the grid is built from Cartesian points: what counts is whether those differ (the longitude of a
+            # pole is not part of its position); differences at rounding level give no verdict
+            from .. import sphere as S
+
+            d = max(float(np.max(np.abs(np.asarray(S.ll2xyz(*a)) - np.asarray(S.ll2xyz(*b))))) for a, b in zip(mesh["nodes"], m2["nodes"]))
+            expect = True if d == 0.0 else (None if d < 1e-12 else False)
 
     if k != "copy":
         for q in case.get("history", {}).get("g2", []):
             getattr(g2, q)
     e12, e21 = (g1 == g2), (g2 == g1)
     n12, n21 = (g1 != g2), (g2 != g1)
-    chk("eq_iff_same", bool(e12) == expect, f"g1 == g2 gave {e12!r}, expected {expect} for variant {v}")
+    if expect is not None:
+        chk("eq_iff_same", bool(e12) == expect, f"g1 == g2 gave {e12!r}, expected {expect} for variant {v}")
     chk("symmetric", bool(e12) == bool(e21), f"g1==g2 {e12!r} but g2==g1 {e21!r}")
     chk("ne_is_negation", bool(n12) == (not bool(e12)) and bool(n21) == (not bool(e21)), f"== {e12!r}/{e21!r}, != {n12!r}/{n21!r}")
     chk("returns_bool", isinstance(e12, (bool, np.bool_)) and isinstance(n12, (bool, np.bool_)), f"types {type(e12)}, {type(n12)}")
